@@ -450,6 +450,10 @@ static void gen_numfields() {
     static const char *tails[] = {"}", "x}", "", ">}", "}z", "c}"};
     static const char *pre[] = {"", "a", "{{"};
     auto L = arg_lists();
+    // long specifiers: many repeated flags, then a valid end / an unexpected byte / the terminator (error-message buffers)
+    for (int k : {30, 39, 40, 41, 63, 64, 65, 78, 79, 80, 81, 100, 200}) for (const char *fl : {"<", "+", "#", "_*"}) for (const char *end : {"}", "!}", "", "\xC3}"}) {
+        Bytes f = "{"; for (int i = 0; i < k; ++i) f += fl; f += end; op_fmt(f, L[1]); op_fmt("ab" + f + "c", L[3]);
+    }
     // a long padding run arriving when the output buffer already holds text, at widths around its capacities
     for (const char *w : {"246", "247", "255", "256", "257", "502", "510", "511", "512", "513", "1014", "1023", "1025"})
         for (const char *pr : {"", "0123456789"}) for (size_t k = 1; k <= 2; ++k) op_fmt(Bytes(pr) + "{" + w + "}z", L[k]);
@@ -477,9 +481,13 @@ static AnyArg rand_arg(Rng &rng) {
     case 0: case 1: case 2: case 3: return rand_int_arg(rng);
     case 4: return mk_int(AnyArg::BOOL, 0, rng.below(2));
     case 5: { static const AnyArg::T f[] = {AnyArg::S_CSTR, AnyArg::S_ST, AnyArg::S_STD, AnyArg::S_VIEW, AnyArg::S_C8Z, AnyArg::S_U8STD, AnyArg::S_U16Z, AnyArg::S_U32Z, AnyArg::S_WZ, AnyArg::S_U16STD, AnyArg::S_WSTD};
-              std::vector<uint32_t> sc; int n = (int)rng.below(9); static const uint32_t pool[] = {'a', 'b', 'Z', ' ', 0xE9, 0x20AC, 0x1F600, '}', '{'};
-              for (int i = 0; i < n; ++i) sc.push_back(pool[rng.below(9)]);
-              return mk_str(f[rng.below(11)], sc); }
+              std::vector<uint32_t> sc; int n = (int)rng.below(9); static const uint32_t pool[] = {'a', 'b', 'Z', ' ', 0xE9, 0x20AC, 0x1F600, '}', '{', 0};
+              for (int i = 0; i < n; ++i) sc.push_back(pool[rng.below(10)]);
+              AnyArg::T form = f[rng.below(11)];
+              bool hasnul = false; for (uint32_t c : sc) hasnul |= c == 0;
+              if (hasnul && (form == AnyArg::S_CSTR || form == AnyArg::S_C8Z || form == AnyArg::S_U16Z || form == AnyArg::S_U32Z || form == AnyArg::S_WZ))
+                  form = (sc.size() & 1) ? AnyArg::S_ST : AnyArg::S_STD;      // an embedded NUL needs a sized form
+              return mk_str(form, sc); }
     case 6: return mk_int(AnyArg::C8, 0, 'a' + rng.below(26));
     case 7: { AnyArg a; a.t = AnyArg::NULLSTR; return a; }
     default: return rand_int_arg(rng);
@@ -521,7 +529,7 @@ static void gen_fields(Rng &rng, long long count) {
 // every integer type at boundary values x every class x prefix/sign/zero-pad layouts (directed C11)
 static void gen_int_layouts() {
     static const AnyArg::T ts[] = {AnyArg::I8, AnyArg::U8, AnyArg::I16, AnyArg::U16, AnyArg::I32, AnyArg::U32, AnyArg::I64, AnyArg::U64, AnyArg::CHAR, AnyArg::WCHAR, AnyArg::C16, AnyArg::C32, AnyArg::C8};
-    static const char *specs[] = {"{}", "{d}", "{x}", "{X}", "{o}", "{b}", "{#x}", "{#X}", "{#o}", "{#b}", "{+}", "{+#x}", "{08}", "{08x}", "{#08x}", "{+08}", "{<8}|", "{>8}", "{_*8}", "{_*<8}|", "{#_*12b}", "{+_ 6d}", "{c}", "{1}", "{2}", "{+#012o}"};
+    static const char *specs[] = {"{0b}", "{0#b}", "{+0b}", "{064b}", "{066#b}", "{0o}", "{0#o}", "{070#x}", "{}", "{d}", "{x}", "{X}", "{o}", "{b}", "{#x}", "{#X}", "{#o}", "{#b}", "{+}", "{+#x}", "{08}", "{08x}", "{#08x}", "{+08}", "{<8}|", "{>8}", "{_*8}", "{_*<8}|", "{#_*12b}", "{+_ 6d}", "{c}", "{1}", "{2}", "{+#012o}"};
     for (AnyArg::T t : ts) for (long long v : SBOUND) for (int variant = 0; variant < ((t == AnyArg::I64 || t == AnyArg::U64) ? 2 : 1); ++variant)
         for (const char *s : specs) { if (t == AnyArg::C8 && !strcmp(s, "{c}") && (v < 0 || v > 127)) continue; op_fmt(s, {mk_int(t, v, (unsigned long long)v, variant)}); }
     // every width from 1 to beyond the natural size, for each radix, prefix/sign flag and padding style: the pad
